@@ -47,8 +47,8 @@ EPS = F(1e-10)
 DELTA = F(1e-5)
 GEPS = F(1e-10)
 TOL = F(1, 10 ** 12)
-KINDS = ['headon', 'oblique', 'edge', 'corner', 'multi', 'endhit', 'graze', 'percross', 'chord', 'fast', 'stoch', 'force']
-WEIGHTS = [3, 5, 2, 1, 4, 2, 2, 3, 1, 2, 3, 3]
+KINDS = ['headon', 'oblique', 'edge', 'corner', 'multi', 'endhit', 'graze', 'percross', 'chord', 'fast', 'stoch', 'force', 'pullback']
+WEIGHTS = [3, 5, 2, 1, 4, 2, 2, 3, 1, 2, 3, 3, 3]
 
 
 def dy(rng, lo, hi, bits):
@@ -128,6 +128,23 @@ def gen_scenario(rng, kind):
             steps = rng.randint(20, 60)
             dt = rng.choice([F(1, 8), F(1, 16)])
             v = [cap(x / 2, i, F(1, 4)) for i, x in enumerate(v)]
+    elif kind == 'pullback':
+        # a particle close to a wall that moves AWAY from it while a constant force pulls it back: it returns to the wall
+        # within the step at the dyadic time t1 (distance chosen as a t1^2 - v t1, so the hit time equation has exact roots)
+        d = rng.choice(walls); hi = rng.random() < 0.5
+        dt = rng.choice([F(1, 8), F(1, 16), F(1, 4)])
+        a = F(2 ** rng.randint(1, 4))                      # |F_d| / (2 m)
+        t1 = dt * rng.choice([F(1, 4), F(1, 2), F(3, 4), F(1, 8)])
+        vn = a * t1 * rng.choice([F(1, 2), F(1, 4), F(3, 4), F(1, 8)])
+        dist = a * t1 * t1 - vn * t1
+        for k in range(3):
+            v[k] = cap(pm2k(rng, 1, 4), k, F(1, 4)) if rng.random() < 0.6 else F(0)
+        v[d] = -vn if hi else vn
+        r[d] = side_pos(d, hi, dist)
+        force = [F(0)] * 3
+        force[d] = 2 * a if hi else -2 * a
+        refl = rng.choice(['mirror', 'bounceback', 'stochastic'])
+        steps = rng.randint(2, 6)
     elif kind in ('edge', 'corner'):
         dirs = rng.sample(walls, 2 if kind == 'edge' else 3)
         thit = dt * rng.choice([F(1, 2), F(1, 4), F(3, 4)])
@@ -304,7 +321,17 @@ def cell_index(gs, cell):
 def compare(gs, model, real, err):
     """-> None or a description of the first disagreement"""
     fast = gs['kind'] == 'fast'
+    # Exact ties (two wall planes reached at the same time): which wall is reflected at first - and so which coordinate gets the
+    # 1e-10 displacement first - depends on the order of the wall TRIANGLES in the cell's list (own walls first, then those of the
+    # neighbour cells); the model treats a face as the union of its two triangles.  Both orders satisfy the property; after a tie
+    # positions are compared with 3 eps instead of 1e-12 (velocities, outcome and cell stay exact).
+    tie = False
+    prev = {'r': gs['r'], 'v': gs['v']}
     for k in range(gs['steps']):
+        if not gs.get('force') and prev is not None:
+            tie = tie or edge_in_step(gs, prev)
+        rl0 = real[k] if k < len(real) else None
+        prev = {'r': rl0[1], 'v': rl0[2]} if (rl0 is not None and rl0[0] == 'ok') else None
         m = model[k] if k < len(model) else None
         rl = real[k] if k < len(real) else None
         if m is None:
@@ -322,6 +349,8 @@ def compare(gs, model, real, err):
                 return 'step %d: model lost, real particle present at %s' % (k, [float(x) for x in rl[1]])
             return None if err is None else 'model lost, real error %s' % err
         if rl[0] == 'gone':
+            if fast and err is None:
+                return None          # displacement above one cell and the particle silently erased: reported by the oracle, not a model question
             return 'step %d: model ok, real particle erased' % k
         if fast:
             continue
@@ -330,7 +359,7 @@ def compare(gs, model, real, err):
         for d in range(3):
             if mv[d] != rv[d]:
                 return 'step %d: v[%d] model %s real %s' % (k, d, mv[d], rv[d])
-            if abs(mr[d] - rr[d]) > TOL:
+            if abs(mr[d] - rr[d]) > (3 * EPS if tie else TOL):
                 return 'step %d: r[%d] model %s real %s (diff %.3e)' % (k, d, float(mr[d]), float(rr[d]), float(mr[d] - rr[d]))
         ci = cell_index(gs, rcell)
         if ci is not None and ci != mcell:
@@ -365,6 +394,11 @@ def oracle(gs, dump, rc, out, err):
         if prev:
             edge = edge or (forcefree and edge_in_step(gs, prev[0]))
         nf = len(fails)
+        if len(free) != n0 and not slow and forcefree and rc == 0:
+            # displacement above one cell: the property demands an ERROR; the particle was erased and the run went on
+            fails.append(('C08-fast-lost-silently', 'step %d: |v| dt = %s cell widths, %d free particles (%d at the start) and no error reported'
+                          % (step, [str(abs(gs['v'][d]) * dt / gs['w'][d]) for d in range(3)], len(free), n0)))
+            break
         if len(free) != n0 and (slow or not forcefree):
             fails.append(('particle-lost', 'step %d: %d free particles, %d at the start' % (step, len(free), n0)))
             if edge:
@@ -435,6 +469,22 @@ def edge_in_step(gs, p):
     return len(ts) != len(set(ts))
 
 
+CORPUS = [
+    # known finding C08-edge-hit-lost: exact edge hit with ReflectorMirror
+    dict(kind='edge', box=[F(4), F(4), F(4)], ncell=[4, 4, 4], rc=F(1), per=[False, False, True], refl='mirror',
+         r=[F(1, 2), F(1, 2), F(2)], v=[F(-1), F(-1), F(0)], dt=F(3, 4), steps=1, force=None),
+    # known finding C08-fast-lost-silently: 2.5 cell widths per step along a periodic direction, the wall hit lies two cells away
+    dict(kind='fast', box=[F(9, 4), F(9, 4), F(15, 4)], ncell=[3, 3, 5], rc=F(3, 4), per=[False, True, False], refl='bounceback',
+         r=[F(49, 32), F(77, 64), F(11, 64)], v=[F(1), F(-15, 2), F(-1)], dt=F(1, 4), steps=2, force=None),
+    # earlier false alarm (thorough tier): exact edge hit with bounce-back where the real wall order differs from the model's
+    dict(kind='edge', box=[F(5, 2), F(2), F(3, 2)], ncell=[5, 4, 3], rc=F(1, 2), per=[True, False, False], refl='bounceback',
+         r=[F(151, 64), F(119, 64), F(9, 32)], v=[F(1, 2), F(1, 4), F(-1, 2)], dt=F(3, 4), steps=4, force=None),
+    # the demonstration of a receding particle pulled back into the wall (accelerated flight)
+    dict(kind='pullback', box=[F(4), F(4), F(4)], ncell=[4, 4, 4], rc=F(1), per=[False, False, False], refl='mirror',
+         r=[F(2), F(2), F(1, 256)], v=[F(0), F(0), F(1, 8)], dt=F(1, 8), steps=4, force=[F(0), F(0), F(-16)]),
+]
+
+
 def main(argv):
     if len(argv) < 3:
         print(__doc__); return 2
@@ -451,6 +501,13 @@ def main(argv):
                 agree=0, disagreements=[], oracle_failures=[], observations=[], eps=str(EPS), pos_tolerance='1e-12',
                 velocity_comparison='exact')
     scen = []
+    if '--corpus' in argv:
+        # fixed scenarios that run on every check: minimised past failures (the recorded known findings, earlier false alarms)
+        for i, gs in enumerate(CORPUS):
+            gs = dict(gs); gs['id'] = 'k%04d' % i
+            gs['w'] = [gs['box'][d] / gs['ncell'][d] for d in range(3)]
+            scen.append(gs)
+        ncases = 0
     for i in range(ncases):
         kind = only or rng.choices(KINDS, WEIGHTS)[0]
         gs = gen_scenario(rng, kind)
